@@ -263,6 +263,9 @@ func needSpace(a, b string) bool {
 	if isDigit(la) && fb == '.' {
 		return true
 	}
+	if la == '.' && len(a) >= 2 && isDigit(a[len(a)-2]) && isIdentPart(fb) {
+		return true
+	}
 	return false
 }
 
